@@ -61,10 +61,16 @@ func (d *PathDecoder) linksInBody(body *hclsyntax.Body, bodySchema *schema.BodyS
 					})
 				}
 				for _, attrDep := range dk.Attributes {
+					attr, ok := block.Body.Attributes[attrDep.Name]
+					if !ok {
+						// the dependency comes from the attribute's default value,
+						// there is nothing written to attach the link to
+						continue
+					}
 					links = append(links, lang.Link{
 						URI:     u.String(),
 						Tooltip: link.Tooltip,
-						Range:   block.Body.Attributes[attrDep.Name].Expr.Range(),
+						Range:   attr.Expr.Range(),
 					})
 				}
 			}
